@@ -55,7 +55,21 @@ func c07Frame(c *sim.Ctx) (frame []byte, fm []ref.Field, valid bool) {
 	frame, fm = ref.Encode(a)
 	valid = true
 	if t.Bool(1, 4) {
-		switch t.Int(4) {
+		switch t.Int(5) {
+		case 4:
+			// the body ends early, right after one of its fields, with a truthful
+			// remaining length (a PUBLISH that stops after its topic)
+			var ends []int
+			for _, fld := range fm {
+				if fld.Kind != "hdr" && fld.Kind != "rl" && fld.End < len(frame) {
+					ends = append(ends, fld.End)
+				}
+			}
+			if len(ends) > 0 {
+				frame = gen.FixRL(append([]byte{}, frame[:ends[t.Int(len(ends))]]...))
+			} else {
+				frame = damageBody(t, frame)
+			}
 		case 0:
 			// bytes that TRAIL the structure inside a truthful frame (a decoder may
 			// accept or reject them - the same way under every schedule)
@@ -174,7 +188,22 @@ func shortFrame(c *sim.Ctx) []byte {
 			a.Props = []ref.Prop{{ID: 0x15, B: s(2)}}
 		}
 	}
-	f, _ := ref.Encode(a)
+	f, sfm := ref.Encode(a)
+	if t.Bool(1, 4) {
+		// the body ends EARLY, right after one of its fields (a PUBLISH that stops
+		// after the topic or the packet identifier, an acknowledgement without its
+		// last field), the remaining length saying so truthfully: accepted or not, the
+		// same under every schedule
+		var ends []int
+		for _, fld := range sfm {
+			if fld.Kind != "hdr" && fld.Kind != "rl" && fld.End < len(f) {
+				ends = append(ends, fld.End)
+			}
+		}
+		if len(ends) > 0 {
+			f = gen.FixRL(append([]byte{}, f[:ends[t.Int(len(ends))]]...))
+		}
+	}
 	if len(f) <= 10 && t.Bool(1, 3) {
 		// a multi-byte (non-minimal) remaining length, so that the exhaustive
 		// sweep also splits inside the header's variable byte integer
